@@ -1,10 +1,10 @@
 package p_codec
 
 import (
-	"strings"
 	"bytes"
 	"encoding/json"
 	"fmt"
+	"strings"
 	"testing"
 	"unsafe"
 
